@@ -179,6 +179,18 @@ chk("C04",
     "relations are proved on Gaussian-integer bins and only replayed (not proved) on generic float recordings.",
     "TLA+ spec (Rotation) model-checked with TLC; every behaviour replayed on the real objects; metamorphic replays through process()", "DESIGN.md#c04")
 
+chk("C17",
+    "For 4-sample integer windows the DFT is exact in Gaussian integers: TLC checks Parseval on the interior bin, quadratic scaling, "
+    "non-negativity and the Welch average for every window over the value alphabet, 1-2 windows and several sampling rates, and exports "
+    "the exact density; each case is replayed through process(PsdProcessingSettings) on all three components. For general windows (even "
+    "and odd n, zero padding, Tukey widths, 1-3 windows) the specification's Parseval identity, exact 4^k scaling, the Welch average and "
+    "the diffuse-field relation sqrt((S(Pns)+S(Pew))/S(Pvt)) are evaluated on seeded noise; PSD preprocessing on analytic cases "
+    "(spectral derivative of bin-centred sinusoids, flat response).",
+    "Trusted: TLC; spec/Psd.tla; scipy's tukey as the definition of the taper. This is the most numeric property: beyond n = 4 the "
+    "specification supplies the identity and the case structure, the arithmetic is checked in floating point (rtol 1e-9). Pole-zero "
+    "responses other than the flat one are not covered.",
+    "TLA+ kernel spec (Psd) model-checked with TLC; one implementation test per TLC case; identity-based replays on seeded noise", "DESIGN.md#c17")
+
 def main():
     man = dict(
         version=1,
